@@ -94,7 +94,7 @@ func famMesh(w *World) {
 	w.linkDefaults()
 	nn := 2 + scn(3)
 	for i := 0; i < nn; i++ {
-		o := NodeOpts{Name: fmt.Sprintf("n%d", i), Service: fmt.Sprintf("svc%d", i), Host: fmt.Sprintf("10.0.0.%d", i+1), Port: 4000 + i, Conn: w.connOpts()}
+		o := NodeOpts{Name: fmt.Sprintf("n%d", i), Service: fmt.Sprintf("svc%d", i), Host: fmt.Sprintf("10.0.0.%d", i+1), Port: 4000 + i, Conn: w.connOpts(), PoolReuse: scnChance(1, 4)}
 		n := w.addNode(o)
 		n.Ch.Register(&echoHandler{w: w, n: n}, "echo")
 	}
@@ -135,6 +135,21 @@ func famMesh(w *World) {
 			}
 			if faulty && scnChance(1, 8) {
 				s.Mode = "blackhole"
+			}
+			switch scn(12) {
+			case 0: // the handler answers before it has read the whole request
+				if s.Mode == "echo" {
+					s.Mode = "respfirst"
+					s.Rs2, s.Rs3 = scn(2000), drawSize(100000)
+				}
+			case 1, 2: // the handler dawdles between the arguments, perhaps past its deadline
+				s.LateRead = time.Duration(1+scn(300)) * 10 * w.Grid
+				if scnChance(1, 2) {
+					s.LateRead = s.Timeout + time.Duration(scn(20)-5)*w.Grid
+				}
+				if s.LateRead <= 0 {
+					s.LateRead = w.Grid
+				}
 			}
 			if faulty && scnChance(1, 6) {
 				s.CancelAfter = time.Duration(scn(40)) * w.Grid
